@@ -36,7 +36,6 @@ KNOWN_TEXT = {
     "C20-M1": "mirror-only: the mirror task polls server.recv(None) inside tokio::select! (mirrors.rs:84); recv reads a frame with read_u8/read_i32/read_exact, which is not cancellation safe: when the next buffer arrives while a reply of the mirror is half read, the bytes read so far are thrown away and the mirror connection is desynchronised; the next 'frame' is garbage (a negative length makes BytesMut::with_capacity panic => the mirror task dies and that server connection is never mirrored again; a large positive one allocates up to 2 GiB). The primary path is unaffected",
     "C20-M2": "mirror-only / resource leak: while a mirror cannot be reached the mirror task loops on pool.get() (mirrors.rs:64-73, `continue`) and looks at neither its exit channel nor its byte channel; when the mirrored server connection is dropped meanwhile the task (with its pool and its retry timer) lives on for as long as the mirror stays unreachable, and once the mirror is back it opens a connection and may replay stale buffers of a server connection that no longer exists",
     "C20-M3": "mirror-only: buffers are dropped individually when the channel is full, so a mirror session can be left inside a transaction block (BEGIN delivered, COMMIT dropped) for good; ServerPool::has_broken deliberately keeps such a mirror connection (Role::Mirror exemption)",
-    "C20-M4": "config: a [mirrors] entry whose mirroring_target_index has no server is accepted and silently never used",
 }
 
 
@@ -68,19 +67,31 @@ def gen_capacity():
 CONFIGS = [
     ("one/m0>0", [("p0", "primary")], [("m0", 0)], 1),
     ("one/m0>0,m1>0", [("p0", "primary")], [("m0", 0), ("m1", 0)], 1),
-    ("one/m0>0,m1>5", [("p0", "primary")], [("m0", 0), ("m1", 5)], 1),
-    ("one/m0>1", [("p0", "primary")], [("m0", 1)], 1),
     ("two/m0>0", [("p0", "primary"), ("r1", "replica")], [("m0", 0)], 1),
     ("two/m0>1", [("p0", "primary"), ("r1", "replica")], [("m0", 1)], 1),
     ("two/m0>0,m1>1", [("p0", "primary"), ("r1", "replica")], [("m0", 0), ("m1", 1)], 1),
     ("two/m0>1,m1>1", [("p0", "primary"), ("r1", "replica")], [("m0", 1), ("m1", 1)], 1),
     ("two/m0>1,m1>0", [("p0", "primary"), ("r1", "replica")], [("m0", 1), ("m1", 0)], 1),
-    ("two/m0>0,m1>5", [("p0", "primary"), ("r1", "replica")], [("m0", 0), ("m1", 5)], 1),
     ("one/pool2/m0>0", [("p0", "primary")], [("m0", 0)], 2),
     ("one/cache/m0>0", [("p0", "primary")], [("m0", 0)], 1, {"prepared_statements_cache_size": 50}),
     ("two/cache/m0>1,m1>0", [("p0", "primary"), ("r1", "replica")], [("m0", 1), ("m1", 0)], 1, {"prepared_statements_cache_size": 50}),
 ]
+# C20-M4 (fixed in /repo by 0edee1c, kept as a regression): a mirror whose mirroring_target_index is not the position of
+# a server of its shard used to be accepted and silently never used; Shard::validate must REJECT such a configuration.
+REJECTED_CONFIGS = [
+    ("one/m0>0,m1>5", [("p0", "primary")], [("m0", 0), ("m1", 5)], 1),
+    ("one/m0>1", [("p0", "primary")], [("m0", 1)], 1),
+    ("two/m0>0,m1>5", [("p0", "primary"), ("r1", "replica")], [("m0", 0), ("m1", 5)], 1),
+    ("two/m0>2", [("p0", "primary"), ("r1", "replica")], [("m0", 2)], 1),
+    ("two/m0>1,m1>2", [("p0", "primary"), ("r1", "replica")], [("m0", 1), ("m1", 2)], 1),
+]
+CFG = {c[0]: c for c in CONFIGS}
 ALL_BACKENDS = ["p0", "r1", "m0", "m1"]
+
+
+def failed(res):
+    """a scenario that did not run (pgcat refused the configuration, harness crash/timeout): never index into it"""
+    return (not isinstance(res, dict)) or "harness_error" in res or "start_error" in res or "events" not in res
 
 
 def make_toml(cfg, with_mirrors):
@@ -343,9 +354,13 @@ def check_pair(cfg, program, sched, res_m, res_b):
     """all model-free checks on one (mirrored run, baseline run) pair -> list of (kind, text)"""
     name, servers, mirrors, pool_size = cfg[:4]
     bad = []
-    for res in (res_m, res_b):
-        if "harness_error" in res or "start_error" in res:
-            return [("harness", str(res.get("harness_error") or res.get("start_error")))]
+    if failed(res_b):
+        return [("harness", "run without mirrors: %s" % str(res_b.get("harness_error") or res_b.get("start_error") or "no events")[:300])]
+    if failed(res_m):
+        if res_m.get("start_error"):
+            # the same configuration starts without its [mirrors] section: the mirrors made pgcat refuse to serve
+            return [("config-rejected", "pgcat refuses the configuration with mirrors (%s) but accepts it without" % str(res_m.get("start_error"))[:200])]
+        return [("harness", "run with mirrors: %s" % str(res_m.get("harness_error") or "no events")[:300])]
     # (i) transcripts
     tm, tb = client_transcript(res_m), client_transcript(res_b)
     if tm != tb:
@@ -567,7 +582,7 @@ def desync_scenario(with_fault):
     pieces 400 ms apart, the cut is inside the DataRow right before the payload.  The next request arrives in
     between: select! drops the half-read recv future.  The payload is then read as a frame header:
     'E' + C3 BF C3 BF = a negative length."""
-    cfg = CONFIGS[0]
+    cfg = CFG["one/m0>0"]
     payload = "Eÿÿxxxxxxxxxxxxxxxxxxxxxxxxxxxxxxxxxxxxxxxx"
     sql1 = "SELECT 1 /*" + payload + "*/"
     # offset of the payload inside the mirror's flush: RowDescription (100 bytes) + D header(5) + ncols(2)
@@ -592,7 +607,7 @@ def desync_scenario(with_fault):
 def zombie_scenario():
     """C20-M2.  Mirror unreachable; the mirrored server connection is created, used, and closed (the server closes
     it: /*mock: close*/); 600 ms later the mirror comes up: the task of the dead connection connects to it."""
-    cfg = CONFIGS[0]
+    cfg = CFG["one/m0>0"]
     steps = [{"op": "backend", "b": "m0", "mode": "down_held"}, {"op": "sleep", "ms": 30},
              {"op": "connect", "c": "c1", "params": {"user": "u", "database": "db"}, "password": "pw"}]
     for i in range(3):
@@ -679,7 +694,7 @@ def check(run):
         program = [r for r in program if r["kind"] != "burst"]
         cases.append({"kind": "healthy", "cfg": cfg, "program": program, "sched": []})
     for i in range(6 if quick else 40):
-        cfg = CONFIGS[[0, 1, 4, 6, 0, 1][i % 6]]
+        cfg = CFG[["one/m0>0", "one/m0>0,m1>0", "two/m0>0", "two/m0>0,m1>1", "one/m0>0", "one/m0>0,m1>0"][i % 6]]
         with_txn = i % 2 == 1
         program = outage_program(rng, capacity, with_txn)
         sched = [(0, mb, "down_held" if i % 4 < 2 else "refuse", 0) for mb, t in cfg[2]] + [(len(program), mb, "normal", 0) for mb, t in cfg[2]]
@@ -687,7 +702,7 @@ def check(run):
 
     # the mirror stops reading while megabytes go through: the mirror task blocks in its write, the channel fills up
     for i in range(1 if quick else 4):
-        cfg = CONFIGS[0]
+        cfg = CFG["one/m0>0"]
         program = [req("c1", [Q("SELECT 0 /*bp%d_first*/" % i)])]
         k = 0
         for b in range(6 if quick else 10):
@@ -735,6 +750,7 @@ def check(run):
         bad = check_pair(cs["cfg"], cs["program"], cs["sched"], cs["res_m"], cs["res_b"])
         if bad and bad[0][0] == "harness":
             run.broken.append("wire harness failed: %s" % bad[0][1])
+            cs["failed"] = True
             continue
         # a failure must reproduce when the pair is re-run on its own: the machine is shared (other checks run their
         # own poolers and mock backends at the same time; load spikes), and a first failure that does not repeat is
@@ -749,6 +765,8 @@ def check(run):
                     bad = b2
                     cs["res_m"], cs["res_b"] = r2
                     break
+            if failed(cs["res_m"]) or failed(cs["res_b"]):
+                cs["failed"] = True
             if not bad:
                 unconfirmed.append({"config": cs["cfg"][0], "kind": cs["kind"], "first_failure": [list(b) for b in first][:2]})
         key = json.dumps([cs["cfg"][0], [(r["c"], r["msgs"]) for r in cs["program"]], cs["sched"]], sort_keys=True)
@@ -760,6 +778,12 @@ def check(run):
         stats["by_cfg"][cs["cfg"][0]] = stats["by_cfg"].get(cs["cfg"][0], 0) + 1
         if cs["kind"] == "fault":
             stats["by_fault"][cs["fault"]] = stats["by_fault"].get(cs["fault"], 0) + 1
+        for kind, text in bad[:1]:
+            if kind == "config-rejected":
+                run.violation("tie-broken", "C20 %s: %s [config %s; the model's valid_cfg accepts it]" % (kind, text, cs["cfg"][0]),
+                              {"correspondence": "Mirror.Model.valid_cfg vs config::parse", "input": {"config": cs["cfg"]}, "scenario_with_mirrors": cs["scn_m"], "scenario_without": cs["scn_b"]})
+        if cs.get("failed"):
+            continue
         mc = mirror_counts(cs["cfg"], cs["res_m"])
         for mb, t in cs["cfg"][2]:
             stats["mirror_frames"] += mc[mb]["frames"]
@@ -789,14 +813,14 @@ def check(run):
     if proof_ok and not run.violations:
         exprs, metas = [], []
         for cs in cases:
-            if cs["kind"] not in ("healthy", "outage") or "harness_error" in cs["res_m"]:
+            if cs["kind"] not in ("healthy", "outage") or cs.get("failed") or failed(cs["res_m"]):
                 continue
             plan, cid_of, seg_list = plan_for(cs["cfg"], cs["res_m"], cs["kind"], capacity)
             exprs.append(model_expr(cs["cfg"], plan))
             metas.append((cs, cid_of, seg_list))
         # attachment function on every configuration, every index
         att = []
-        for cfg in CONFIGS:
+        for cfg in CONFIGS + REJECTED_CONFIGS:
             for idx in range(0, 7):
                 att.append((cfg, idx))
                 exprs.append("map (fun im => fst im) (mirrors_of %s 0 %d)" % (coq_cfg(cfg), idx))
@@ -808,6 +832,9 @@ def check(run):
             if dis:
                 # timing-dependent deliveries are not a defect by themselves: confirm on a re-run before reporting
                 r2 = W.run_scenario(wire, cs["scn_m"], timeout=120)
+                if failed(r2):
+                    run.broken.append("wire harness failed on a re-run: %s" % str(r2.get("harness_error") or r2.get("start_error"))[:200])
+                    continue
                 plan2, cid2, seg2 = plan_for(cs["cfg"], r2, cs["kind"], capacity)
                 v2 = vlib.coq_eval("c20r", PREAMBLE, [model_expr(cs["cfg"], plan2)])[0]
                 dis2 = compare_model(cs["cfg"], r2, vlib.parse_coq(v2), cid2, seg2)
@@ -838,7 +865,7 @@ def check(run):
                               {"correspondence": "Mirror.Model.mirrors_of", "input": {"config": cfg, "index": idx}, "model": mv}, found_input=False)
         # which mirrors were really attached (connected to), healthy runs: exactly the model's
         for cs in cases:
-            if cs["kind"] != "healthy" or "harness_error" in cs["res_m"]:
+            if cs["kind"] != "healthy" or cs.get("failed") or failed(cs["res_m"]):
                 continue
             name, servers, mirrors, pool_size = cs["cfg"][:4]
             for j, (mb, t) in enumerate(mirrors):
@@ -847,8 +874,6 @@ def check(run):
                 if bool(morder) != used:
                     run.violation("tie-broken", "attachment: mirror %s (target %d) connected=%s but its target server was %sused (config %s)" % (mb, t, bool(morder), "" if used else "not ", name),
                                   {"correspondence": "mirrors_of vs connections opened", "input": {"config": cs["cfg"], "program": cs["program"]}, "scenario_with_mirrors": cs["scn_m"]}, found_input=False)
-                if t >= len(servers):
-                    run.known_finding("C20-M4 " + KNOWN_TEXT["C20-M4"], key="C20-M4")
         if metas:
             samples.append({"kind": "model", "expr": exprs[0][:600], "value": vals[0][:300]})
 
@@ -860,14 +885,14 @@ def check(run):
         rf, rc, rz = W.run_scenarios(wire, [scn_f, scn_c, scn_z], timeout=120)
         run.cov["evaluations"] += 3
         for label, res, scn in (("desync", rf, scn_f), ("desync-control", rc, scn_c)):
-            if "harness_error" in res or "start_error" in res:
-                run.broken.append("wire harness failed: %s" % (res.get("harness_error") or res.get("start_error")))
+            if failed(res):
+                run.broken.append("wire harness failed (%s scenario): %s" % (label, str(res.get("harness_error") or res.get("start_error"))[:200]))
                 continue
             # the primary path of both must be complete and identical
             if [x for x in client_transcript(res) if x[2] != "ok"]:
                 run.violation("counterexample", "C20 transcript: a request failed in the %s scenario: %s" % (label, [x[:3] for x in client_transcript(res) if x[2] != "ok"]),
                               {"input": {"scenario": label}, "scenario_with_mirrors": scn})
-        if "events" in rf and "events" in rc:
+        if not failed(rf) and not failed(rc):
             if [x[3] for x in client_transcript(rf)] != [x[3] for x in client_transcript(rc)]:
                 run.violation("counterexample", "C20 transcript: the client sees different bytes when the mirror's reply is cut in two", {"input": {"scenario": "desync"}, "scenario_with_mirrors": scn_f, "scenario_without": scn_c})
             mf = sum(len([f for f in v if f[0] != "X"]) for v in conn_frames(rf, "m0")[0].values())
@@ -879,7 +904,7 @@ def check(run):
             bad = check_pair(cfgd, progd, [], rf, rc)
             for kind, text in [b for b in bad if b[0] not in ("transcript", "server-bytes", "latency")][:1]:
                 run.violation("counterexample", "C20 %s: %s [desync scenario]" % (kind, text), {"input": {"scenario": "desync"}, "scenario_with_mirrors": scn_f})
-        if "events" in rz:
+        if not failed(rz):
             pclose = [e["seq"] for e in rz["events"] if e.get("who") == "p0" and e.get("ev") == "close"]
             mopen = [e["seq"] for e in rz["events"] if e.get("who") == "m0" and e.get("ev") == "open"]
             stale = [e for e in rz["events"] if e.get("who") == "m0" and e.get("ev") == "msg" and e["tag"] != "X"]
